@@ -764,7 +764,7 @@ func (v Value) toReflectValue(typ reflect.Type) (reflect.Value, error) {
 		// We convert to float64 here because converting to int64 will not tell us
 		// if a value is outside the range of int64
 		tmp := toIntegerFloat(v)
-		if tmp < floatMinInt || tmp > floatMaxInt {
+		if tmp < floatMinInt || tmp >= floatMaxInt { // floatMaxInt is 2^63 (or 2^31), one past the maximum
 			return reflect.Value{}, fmt.Errorf("RangeError: %f (%v) to int", tmp, v)
 		}
 		return reflect.ValueOf(int(tmp)).Convert(typ), nil
@@ -790,7 +790,7 @@ func (v Value) toReflectValue(typ reflect.Type) (reflect.Value, error) {
 		// We convert to float64 here because converting to int64 will not tell us
 		// if a value is outside the range of int64
 		tmp := toIntegerFloat(v)
-		if tmp < floatMinInt64 || tmp > floatMaxInt64 {
+		if tmp < floatMinInt64 || tmp >= floatMaxInt64 { // float64(MaxInt64) is 2^63
 			return reflect.Value{}, fmt.Errorf("RangeError: %f (%v) to int", tmp, v)
 		}
 		return reflect.ValueOf(int64(tmp)).Convert(typ), nil
@@ -798,7 +798,7 @@ func (v Value) toReflectValue(typ reflect.Type) (reflect.Value, error) {
 		// We convert to float64 here because converting to int64 will not tell us
 		// if a value is outside the range of uint
 		tmp := toIntegerFloat(v)
-		if tmp < 0 || tmp > floatMaxUint {
+		if tmp < 0 || tmp >= floatMaxUint { // float64(MaxUint) is 2^64
 			return reflect.Value{}, fmt.Errorf("RangeError: %f (%v) to uint", tmp, v)
 		}
 		return reflect.ValueOf(uint(tmp)).Convert(typ), nil
@@ -824,7 +824,7 @@ func (v Value) toReflectValue(typ reflect.Type) (reflect.Value, error) {
 		// We convert to float64 here because converting to int64 will not tell us
 		// if a value is outside the range of uint64
 		tmp := toIntegerFloat(v)
-		if tmp < 0 || tmp > floatMaxUint64 {
+		if tmp < 0 || tmp >= floatMaxUint64 { // float64(MaxUint64) is 2^64
 			return reflect.Value{}, fmt.Errorf("RangeError: %f (%v) to uint64", tmp, v)
 		}
 		return reflect.ValueOf(uint64(tmp)).Convert(typ), nil
